@@ -22,6 +22,10 @@ CLAIMED = {
    "Structural conditions decided on every run: the comparison step is extracted from the SSA as a decision table over (field present in a / in b, strings equal, comparator zero/negative) and compared with the required table (missing = empty string and never skipped, comparator called with (a,b), sign decides, string fallback on comparator-equal, equal continues, equal tuples not less); observation ranks are recorded over the same flattened field list the comparison walks, for trimmed values as the empty string, only on first observation and as the map's size; the num comparator's full decision table equals DESIGN Appendix A3 and alpha is strings.Compare; both public entry points use the one comparison over the flattened fields; the flattened-field cache is only reset, never patched.",
    "Does not decide the fuzzy number parser, sort.Slice itself, or that ranks recorded during interning are the ranks in force when sorting. Trusted: go/types, go/ssa, tables A3 and the step table in the checker.",
    "decision-table extraction (abstract interpretation of SSA over a finite predicate domain) + producer/consumer site rules"),
+ "C13": ("DESIGN.md §4 C13",
+   "Structural conditions decided on every run: every implementation of Assumption.Compare that runs a hypothesis test returns on every path (paths enumerated by abstract interpretation, small Sample helpers inlined) a Comparison whose Alpha is verbatim the first sample's threshold, with N1/N2 and the test's argument order tied to the right samples; benchmath.Sample is only constructed from a slice sorted in the constructor and Sorted:true is only claimed for such values; process-wide memo tables are keyed verbatim by every input; FormatDelta's and PctRangeString's complete decision tables and arithmetic equal the documented rendering rules (formula identity decided over the rationals at sample points of both signs); the summary wiring of the three models.",
+   "Does not decide coverage, exactness, symmetry or invariance of the p-values and intervals themselves (those are numerical properties of go-moremath and internal/stats), nor the mode scan's arithmetic. Trusted: go/types, go/ssa, the rendering tables in DESIGN Appendix A4 as corrected for negative centres.",
+   "path enumeration by abstract interpretation of SSA + rational-function identity testing + memo-key dataflow + constructor site rules"),
 }
 
 NOT_YET = "check not built yet in this round (planned in DESIGN.md); not claimed until its rules run clean on the unchanged tree"
